@@ -183,6 +183,7 @@ def run_part(ctx, quick):
         "batches": rpt["batches"], "children": rpt["children"], "workers": rpt["workers"],
         "per_input_cpu_limit_s": rpt["per_input_cpu_limit_s"], "mem_cap_bytes": rpt["mem_cap_bytes"],
         "crashes": len(rpt["crashes"]), "nondeterministic": len(rpt["nondet"]),
+        "aborted_after_deaths": rpt.get("aborted_after_deaths", False),
         "known_finding_instances": known_counts,
         "slowest": rpt["slowest"][:5],
         "input_distribution": rpt["input_distribution"],
